@@ -8,6 +8,7 @@ CONSTANT Defect   \* "none": the definition.  Models of the defects found in the
                   \* that the monitor can fire on them (configs that EXPECT the violation):
                   \* "never_merged": a switch the merge forgets (result keeps the earlier source's value)
                   \* "shared_tags":  the result's tag map IS the earlier source's map, the later tags are copied into it
+                  \* "crossed_switch": a switch whose later-source guard tests a different switch (seeded C31-3)
                   \* "aliased_list": a result list built by appending onto the earlier source's slice (seeded C31-2)
 VARIABLES k, x, y, z, ph, out
 vars == <<k, x, y, z, ph, out>>
@@ -30,17 +31,29 @@ ModelOut(kk, a, b, c) ==
     THEN [Good(kk, a, b, c) EXCEPT !.hx = Merge(kk, a, b) \o [i \in 1..Len(c) |-> IF i <= Len(a) THEN a[i] ELSE c[i]]]
   ELSE Good(kk, a, b, c)
 
-Init == /\ k \in Kinds
-        /\ x \in Dom(k) /\ y \in Dom(k) /\ z \in Dom(k)
-        /\ ph = "in" /\ out = 0
+\* k = "hot": switch INDEPENDENCE.  One switch field (the harness takes every bool field of agent.Config in turn) gets the
+\* triple y, all the other switches get the triple x (one-hot and all-but-one patterns in each source); the selected
+\* switch must follow its own sources only.
+HotOthers == { <<0, 0, 0>>, <<0, 1, 0>>, <<1, 0, 0>>, <<0, 0, 1>>, <<1, 1, 1>> }
+HotOut(o, s) ==
+  IF Defect = "crossed_switch"      \* the later source's guard reads a neighbouring switch (seeded C31-3)
+    THEN [Good("or", s[1], s[2], s[3]) EXCEPT !.ab = Merge("or", s[1], o[2]), !.hb = Merge("or", s[1], o[2])]
+    ELSE Good("or", s[1], s[2], s[3])
+
+Init == \/ /\ k \in Kinds
+           /\ x \in Dom(k) /\ y \in Dom(k) /\ z \in Dom(k)
+           /\ ph = "in" /\ out = 0
+        \/ /\ k = "hot"
+           /\ x \in HotOthers /\ y \in [1..3 -> 0..1] /\ y # x /\ z = 0
+           /\ ph = "in" /\ out = 0
 
 Eval == /\ ph = "in" /\ ph' = "out"
-        /\ out' = ModelOut(k, x, y, z)
+        /\ out' = IF k = "hot" THEN HotOut(x, y) ELSE ModelOut(k, x, y, z)
         /\ UNCHANGED <<k, x, y, z>>
 
 Next == Eval
 Spec == Init /\ [][Next]_vars
 
-LawsHold == Laws(k, x, y, z)
-C31      == ph = "out" => Clauses(k, x, y, z, out) = {}
+LawsHold == k # "hot" => Laws(k, x, y, z)
+C31      == ph = "out" => IF k = "hot" THEN Clauses("or", y[1], y[2], y[3], out) = {} ELSE Clauses(k, x, y, z, out) = {}
 =============================================================================
